@@ -38,6 +38,7 @@ PROBES = [
     "tracker-lagging>=3",
     "tracker-caught-up-equals-live-tree",
     "tracker-follows-key-to-blank",
+    "delivery-without-reading-the-proof",
 ]
 FAULTS = ["msg-truncate", "msg-delay", "crash-reopen"]
 COMPONENTS = {
@@ -170,7 +171,13 @@ class World(SWorld):
             st.probe("repeated-write-same-value")
         tr.pos += 1
         tr.consumed += 1
-        self.compare(tr, f"consuming log entry {tr.pos}")
+        # the client does not necessarily look at the proof after every message: some
+        # trackers read value / branch / root only every few deliveries
+        every = int(self.cfg.get("observe_every", 1))
+        if every <= 1 or tr.consumed % every == 0:
+            self.compare(tr, f"consuming log entry {tr.pos}")
+        else:
+            self.st.probe("delivery-without-reading-the-proof")
         if tr.consumed >= 3 and tr.other >= 1 and tr.rejected >= 1:
             st.nontrivial = True
 
@@ -278,6 +285,7 @@ def generate(rng):
                 cmds.append(d)
     for t in range(nt):
         cmds.append({"op": "catchup", "t": t})
+    cfg["observe_every"] = rng.choice([1, 1, 2, 3, 5])
     return {"prop": ID, "cfg": cfg, "cmds": cmds}
 
 
